@@ -33,6 +33,7 @@ class Pol:
         self.track_inv = track_inv  # atoms met in a denominator are written "1/atom"
         self.track_coef = track_coef  # numeric literals other than 0, 1, -1 become atoms "#<magnitude>"
         self.inline_repo = inline_repo  # module-level helper functions of the package are looked into (their parameter atoms renamed)
+        self.expand_params = False  # optional parameters replaced by what the package's call sites pass (set by the caller)
         self.opaque = set(opaque)  # local names kept as atoms instead of being substituted
         self.opaque_label = dict(opaque) if isinstance(opaque, dict) else {}  # name -> atom text (so that rules need not know the name)
         self.du = get_defuse(func, P)
@@ -159,7 +160,11 @@ class Pol:
         for d in rd:
             k = (id(d), name)
             if d.how == "param":
-                out.append((1, frozenset({name})))
+                exp = self._caller_terms(name) if getattr(self, "expand_params", False) else None
+                if exp:
+                    out += exp  # an optional parameter for which every call site of the package passes a computed value
+                else:
+                    out.append((1, frozenset({name})))
                 continue
             if k in seen:
                 continue
@@ -181,6 +186,11 @@ class Pol:
             elif d.how == "iter":
                 out += self._elem_terms(d.value, d.stmt, None, seen2, d.index)
             elif d.how == "unpack":
+                if isinstance(d.value, ast.Call) and d.index is not None:
+                    got = self._inline(d.value, d.index)
+                    if got is not None:
+                        out += got
+                        continue
                 t = self.terms(d.value, d.stmt, None, seen2)
                 out += [(0, a) for s, a in t] if isinstance(d.value, ast.Call) else t
             elif d.how == "substore":
@@ -189,6 +199,73 @@ class Pol:
             elif d.how == "walrus":
                 out += self.terms(d.value, d.stmt, None, seen2)
         return out
+
+    def _inline(self, call, index):
+        """Terms of what a helper of the package returns for this call (component `index` of a returned tuple when given), with the
+        atoms of the helper's parameters renamed to the caller's arguments.  None when not applicable."""
+        if not self.inline_repo or getattr(self, "_depth", 0) >= 2:
+            return None
+        fn = call.func
+        args = [a for a in call.args if not isinstance(a, ast.Starred)]
+        tg = [t[1] for t in self.P.resolve_callee(fn, self.f) if t[0] == "repo"]
+        if not tg or not all(isinstance(a, (ast.Name, ast.Attribute, ast.Constant)) for a in args + [k.value for k in call.keywords]):
+            return None
+        callee = tg[0]
+        bound = self.P.bind_args(callee, call.args, call.keywords)
+        opq = self.opaque_provider(callee) if getattr(self, "opaque_provider", None) else ()
+        sub = Pol(self.P, callee, opaque=opq, track_inv=self.track_inv, track_coef=self.track_coef, inline_repo=True)
+        sub._depth = getattr(self, "_depth", 0) + 1
+        sub.opaque_provider = getattr(self, "opaque_provider", None)
+        rets = [r for r in walk_no_nested(callee.node) if isinstance(r, ast.Return) and r.value is not None]
+        t_ = []
+        for r in rets:
+            rv = r.value
+            if index is not None:
+                if not (isinstance(rv, ast.Tuple) and index < len(rv.elts)):
+                    return None
+                rv = rv.elts[index]
+            t_ += sub.terms(rv, r)
+        t_ = list(dict.fromkeys(t_))
+        if not t_ or sub.unknown:
+            return None
+        ren = {p_: src(a_) for p_, a_ in bound.items() if isinstance(a_, (ast.Name, ast.Attribute))}
+
+        def rn(atom):
+            inv = atom.startswith("1/")
+            base = atom[2:] if inv else atom
+            for p_, new in ren.items():
+                if base == p_ or base.startswith(p_ + ".") or base.startswith(p_ + "["):
+                    base = new + base[len(p_):]
+                    break
+            return ("1/" if inv else "") + base
+
+        return [(s_, frozenset(rn(x) for x in a_)) for s_, a_ in t_]
+
+    def _caller_terms(self, pname):
+        """Terms of what the package's call sites pass for an optional (default None) parameter; None when it is not optional, no
+        site passes it, or this Pol is itself such an expansion (no recursion)."""
+        if getattr(self, "_depth", 0) >= 1 or pname == self.f.self_name:
+            return None
+        a = self.f.node.args
+        pos = a.posonlyargs + a.args
+        dflt = {x.arg: d_ for x, d_ in zip(pos[len(pos) - len(a.defaults):], a.defaults)}
+        dflt.update({x.arg: d_ for x, d_ in zip(a.kwonlyargs, a.kw_defaults) if d_ is not None})
+        if not (pname in dflt and isinstance(dflt[pname], ast.Constant) and dflt[pname].value is None):
+            return None
+        out = []
+        for g in self.P.all_funcs([self.f.module.name]):
+            for c in walk_no_nested(g.node):
+                if not isinstance(c, ast.Call):
+                    continue
+                kind, fexpr, args, kws = self.P.peel_call(c, g)
+                if not any(t_[0] == "repo" and t_[1].key == self.f.key for t_ in self.P.resolve_callee(fexpr, g)):
+                    continue
+                b = self.P.bind_args(self.f, args, kws)
+                if pname in b and not (isinstance(b[pname], ast.Constant) and b[pname].value is None):
+                    sub = Pol(self.P, g, track_inv=self.track_inv, track_coef=self.track_coef)
+                    sub._depth = 1
+                    out += sub.terms(b[pname], sub.du.stmt_of(c))
+        return list(dict.fromkeys(out)) or None
 
     def _attr(self, e, stmt, scope, seen):
         ch = attr_chain(e)
@@ -282,27 +359,9 @@ class Pol:
                     return t_
         # a helper function of the package called with plain access paths: the terms of what it returns, with the atoms of its
         # parameters renamed to the caller's arguments (opt-in)
-        if self.inline_repo and getattr(self, "_depth", 0) < 2:
-            tg = [t[1] for t in self.P.resolve_callee(fn, self.f) if t[0] == "repo"]
-            if tg and all(isinstance(a, (ast.Name, ast.Attribute, ast.Constant)) for a in args + [k.value for k in e.keywords]):
-                callee = tg[0]
-                bound = self.P.bind_args(callee, e.args, e.keywords)
-                sub = Pol(self.P, callee, track_inv=self.track_inv, track_coef=self.track_coef, inline_repo=True)
-                sub._depth = getattr(self, "_depth", 0) + 1
-                t_ = list(dict.fromkeys(sub.value_terms()))
-                if t_ and not sub.unknown:
-                    ren = {p_: src(a_) for p_, a_ in bound.items() if isinstance(a_, (ast.Name, ast.Attribute))}
-
-                    def rn(atom):
-                        inv = atom.startswith("1/")
-                        base = atom[2:] if inv else atom
-                        for p_, new in ren.items():
-                            if base == p_ or base.startswith(p_ + ".") or base.startswith(p_ + "["):
-                                base = new + base[len(p_):]
-                                break
-                        return ("1/" if inv else "") + base
-
-                    return [(s_, frozenset(rn(x) for x in a_)) for s_, a_ in t_]
+        got = self._inline(e, None)
+        if got is not None:
+            return got
         # repository callee or unknown library call: opaque, unknown sign
         # the result is a fresh atom (its own polarity is +); what is inside is not visible to sign rules
         self.unknown.append(src(e.func))
@@ -380,6 +439,8 @@ def fmt_terms(terms):
 
 def _match(atom, pats):
     for p in pats:
+        if p.startswith("*") and atom.endswith(p[1:]):
+            return True
         if atom == p or atom.endswith("." + p) or (p.endswith("*") and atom.startswith(p[:-1])):
             return True
         if "(" not in p and atom.split("(")[-1].rstrip(")") == p and "(" in atom:
